@@ -25,6 +25,7 @@ const (
 	txUpsertSame      // Upsert key 35
 	txRemove          // Remove key 30
 	txReadBoth        // read-only: Get(20), Get(30)
+	txReadRemove      // read 30, then remove it
 	txAddSamePlus     // Add key 35 and two more keys (extra), restructuring the tree around 35
 	txKinds
 )
@@ -101,6 +102,10 @@ func (x *vfTxn) step(ctx context.Context, w *vfWorld) {
 				opOK = opOK && ok && err == nil
 			}
 		case txRemove:
+			ok, err := b3.Remove(ctx, 30)
+			opOK = ok && err == nil
+		case txReadRemove:
+			x.r30 = get(30)
 			ok, err := b3.Remove(ctx, 30)
 			opOK = ok && err == nil
 		case txReadBoth:
@@ -192,7 +197,7 @@ func vfValueOf(items []vfKV, k int) (string, bool) {
 func VerifC02Serializable() {
 	ctx := context.Background()
 	w, base := vfSetupConcurrent(false)
-	kinds := []int{txRMW, txRMWBoth, txRemove}
+	kinds := []int{txRMW, txRMWBoth, txRemove, txReadRemove}
 	a := &vfTxn{id: 1, tag: "1", kind: kinds[zzvf.Choose("kind1", len(kinds))]}
 	b := &vfTxn{id: 2, tag: "2", kind: kinds[zzvf.Choose("kind2", len(kinds))]}
 	vfRunSchedule(ctx, w, []*vfTxn{a, b}, false)
@@ -225,8 +230,8 @@ func VerifC02Serializable() {
 			}
 			set(20, v20+x.tag)
 			set(30, v30+x.tag)
-		case txRemove:
-			if !has30 {
+		case txRemove, txReadRemove:
+			if !has30 || (x.kind == txReadRemove && x.r30 != v30) {
 				return nil, false
 			}
 			var o2 []vfKV
